@@ -249,6 +249,11 @@ def _check(prop_id, cfg, tier, seed, tmp, start, replay_file):
     for mode, i, rc, lp in crashes:
         j = os.path.join(tmp, "fails", "journal-%d.json" % i)
         t = tail(lp, 6000)
+        if rc == 3 and "HANG " in t:
+            hp = t[t.rindex("HANG ") + 5:].split("\n")[0].strip()
+            if os.path.exists(hp):
+                violations.append({"test": "hang", "replay": hp, "msg": "oracle call did not return (hang)"})
+                continue
         if cfg.get("crash_is_violation") and os.path.exists(j) and ("fatal error:" in t or "panic:" in t or "SIGSEGV" in t or "goroutine " in t):
             try:
                 jd = json.load(open(j))
